@@ -16,12 +16,13 @@ import (
 )
 
 type c11Item struct {
-	Kind     string `json:"kind"` // text probe set include lazy import ssi ssiparsed
-	Text     string `json:"text,omitempty"`
-	Ref      string `json:"ref,omitempty"`  // the name as written in the template
-	Pair     string `json:"pair,omitempty"` // include: with pv="<Pair>"
-	Only     bool   `json:"only,omitempty"`
-	IfExists bool   `json:"if_exists,omitempty"`
+	Kind     string   `json:"kind"`            // text probe set include lazy lazyloop import ssi ssiparsed
+	Names    []string `json:"names,omitempty"` // lazyloop: rooted names visited by one include node, in order
+	Text     string   `json:"text,omitempty"`
+	Ref      string   `json:"ref,omitempty"`  // the name as written in the template
+	Pair     string   `json:"pair,omitempty"` // include: with pv="<Pair>"
+	Only     bool     `json:"only,omitempty"`
+	IfExists bool     `json:"if_exists,omitempty"`
 }
 
 type c11File struct {
@@ -56,6 +57,14 @@ func c11Canary() {
 	})
 }
 
+func c11ListLiteral(names []string) string {
+	var qs []string
+	for _, n := range names {
+		qs = append(qs, `"`+n+`"`)
+	}
+	return "[" + strings.Join(qs, ", ") + "]"
+}
+
 func (f c11File) source() string {
 	if f.Plain {
 		return f.Items[0].Text
@@ -88,6 +97,8 @@ func (f c11File) source() string {
 				}
 			}
 			sb.WriteString(" %}")
+		case "lazyloop":
+			sb.WriteString(`{% for ln in ` + c11ListLiteral(it.Names) + ` %}<{% include ln if_exists %}>{% endfor %}`)
 		case "import":
 			sb.WriteString(`{% import "` + it.Ref + `" mk %}{{ mk() }}`)
 		case "ssi":
@@ -239,6 +250,28 @@ func (r *c11Ref) items(name string, items []c11Item, env *c11Env, sb *strings.Bu
 				return err
 			}
 			sb.WriteString(b.String())
+		case "lazyloop":
+			// one include node, executed once per name: every pass is on its own
+			for _, tn := range it.Names {
+				sb.WriteString("<")
+				t, ok := r.lookup(tn)
+				if ok {
+					if err := r.compileCheck(tn, t, map[string]bool{}); err != nil {
+						if m, isM := err.(c11Missing); isM {
+							m.lazy = true
+							return m
+						}
+						return err
+					}
+					sub := *env
+					var b strings.Builder
+					if err := r.render(tn, t, &sub, &b, nil); err != nil {
+						return err
+					}
+					sb.WriteString(b.String())
+				}
+				sb.WriteString(">")
+			}
 		case "import":
 			tn := vfsAbs(name, it.Ref)
 			t, _ := r.lookup(tn)
@@ -491,6 +524,10 @@ func genC11(t *rapid.T) *c11Case {
 						continue
 					}
 					_ = targetRole
+					if drawInt(t, 0, 5, "lazyloop") == 0 {
+						f.Items = append(f.Items, c11Item{Kind: "pendingloop"})
+						continue
+					}
 					f.Items = append(f.Items, c11Item{Kind: "pendingref", Ref: target})
 					if drawBool(t, "probeafter") {
 						f.Items = append(f.Items, c11Item{Kind: "probe"})
@@ -522,6 +559,29 @@ func genC11(t *rapid.T) *c11Case {
 		for name, f := range cs.Loaders[l] {
 			var items []c11Item
 			for _, it := range f.Items {
+				if it.Kind == "pendingloop" {
+					// names of later plain templates and of missing files, in random order
+					var names []string
+					idx := 0
+					for k, nn := range used {
+						if nn == name {
+							idx = k
+						}
+					}
+					for _, cand := range append(append([]string{}, used[idx+1:]...), missing...) {
+						if (roleOf(cand) == "tpl" || roleOf(cand) == "missing") && drawBool(t, "inloop") {
+							names = append(names, cand)
+						}
+					}
+					for k := len(names) - 1; k > 0; k-- {
+						j := drawInt(t, 0, k, "loopperm")
+						names[k], names[j] = names[j], names[k]
+					}
+					if len(names) > 0 {
+						items = append(items, c11Item{Kind: "lazyloop", Names: names})
+					}
+					continue
+				}
 				if it.Kind != "pendingref" {
 					items = append(items, it)
 					continue
